@@ -618,6 +618,13 @@ def c18(c):
                 runs.append(dict(unit="c18_plain", label="c18_helgrind[%s,%dthr,rep%d]" % (bn, nt, rep), args=[b, nt, 100 + rep], env=e, wrap=HG, timeout=3600))
     threads = [2, 4, 8] if not c.thorough else [2, 4, 8, 16]
     reps = 3 if not c.thorough else 6
+    # forced-preemption runs of the uninstrumented build: all threads on one CPU, a high-resolution timer signal every 100 us whose
+    # handler yields -> threads are suspended at arbitrary instructions (also between two atomic operations); thread-local oracles only
+    for b, bn in enumerate(["model", "noop", "dylib"]):
+        for nt in ([4, 8] if not c.thorough else [2, 4, 8, 16]):
+            for rep in range(1 if not c.thorough else 3):
+                e = dict(guest_env(c)); e["VERIF_C18_PREEMPT"] = "100"; e["VERIF_C18_STEPS"] = "300000" if not c.thorough else "1500000"
+                runs.append(dict(unit="c18_plain", label="c18_preempt[%s,%dthr,rep%d]" % (bn, nt, rep), args=[b, nt, 300 + rep], env=e, timeout=1800))
     # third TSan build: embedder-provided TLS (only the noop and dylib backends have that configuration)
     units.append(dict(name="c18_tsan_embtls", srcs=[D + "c18_threads.cpp"], build="tsan", defs=EXC + ["RLBOX_EMBEDDER_PROVIDES_TLS_STATIC_VARIABLES"], libs=["-ldl"], needs=["libguest1.so", "libguest2.so"]))
     for b, bn in [(1, "noop"), (2, "dylib")]:
@@ -637,7 +644,9 @@ def c18(c):
              "arithmetic, by-name invocation, callback through the sandbox, register/unregister, app pointers -- so creates/destroys constantly "
              "overlap other threads' registry lookups. Oracles: any ThreadSanitizer report with an RLBox frame (de-duplicated by innermost RLBox "
              "function), any helgrind 'possible data race' whose innermost non-libstdc++ frame is an RLBox header (third build: "
-             "uninstrumented -O1 under valgrind --tool=helgrind, fewer steps) and the thread-local single-threaded oracles (pointer translated relative to own sandbox, callback saw own sandbox and "
+             "uninstrumented -O1 under valgrind --tool=helgrind, fewer steps) ; forced-preemption runs of the uninstrumented build (all threads on one CPU, timer signal every 100 us whose handler yields, so threads are "
+             "suspended at arbitrary instructions, also between two atomic operations that no race detector objects to) judged by the thread-local oracles; "
+             "and the thread-local single-threaded oracles (pointer translated relative to own sandbox, callback saw own sandbox and "
              "function, invocation reached own library). Monitor state is per thread and merged after join. The second build routes RLBox's lock "
              "macros (RLBOX_USE_CUSTOM_SHARED_LOCK) through a thin wrapper around std::shared_timed_mutex that injects PRNG yields/sleeps before "
              "acquire and after release and counts contended acquisitions. distinct_nontrivial counts distinct (backend, threads, seed) executions "
